@@ -255,6 +255,25 @@ def execute(case):
             refuse_writes(ro, out, oids)
         finally:
             ro.close()
+        # time-travel (documented: "data will be read up to the given transaction id"): the same with and without
+        # an index file
+        if tids and usable and not torn and not out.failures:
+            stop = tids[case['junk'] % len(tids)]
+            answers = []
+            for with_index in (True, False):
+                d3 = fresh(data, {'.index': usable[-1][0]} if with_index else None)
+                out.evals += 1
+                tt = FileStorage(os.path.join(d3, 'Data.fs'), read_only=True, stop=stop)
+                try:
+                    answers.append(observe(tt, oids, tids, CAPS - {'iterator', 'undoLog', 'record_iternext', 'len-exact'}))
+                finally:
+                    tt.close()
+            df = diff_obs(answers[1], answers[0])
+            out.label('time-travel-open')
+            if df:
+                out.fail((PROPERTY, 'time-travel-open', 'index-changes-the-answer', df[0][0]),
+                         'read-only open with stop=%r: with the index file %s -> %s ; without it %s' % (
+                             stop, fmt_answer(df[0]), fmt_answer(df[2]), fmt_answer(df[1])))
         after = sha_dir(dd)
         if before != after:
             changed = sorted(k for k in set(before) | set(after) if before.get(k) != after.get(k))
